@@ -9,7 +9,8 @@ from harness.deser_run import Producer
 from harness.descr import data_real, ty_coq, value_coq, ty_src
 from harness.props.c06 import in_domain, no_fallback_universe, has_set
 
-NEEDED = ["Deser/Model.v", "Deser/Spec.v", "Ser/Model.v", "Ser/Spec.v", "Ser/RoundTrip.v", "Ser/RoundTripProofs.v", "Ser/RoundTripInd.v", "Ser/RoundTripGen.v"]
+NEEDED = ["Deser/Model.v", "Deser/Spec.v", "Ser/Model.v", "Ser/Spec.v", "Ser/RoundTrip.v", "Ser/RoundTripProofs.v", "Ser/RoundTripInd.v", "Ser/RoundTripGen.v",
+          "Small/Aggregate.v", "Small/AggregateProofs.v", "Small/AggregateRT.v"]
 HEADER_EXTRA = "From AV Require Import Ser.RoundTrip.\n"
 
 
@@ -424,6 +425,7 @@ def run(tier):
     probes.late_conversion_round_trip(R)
     probes.flatten_probe(R)
     probes.aggregate_probe(R, aspects=("round_trip",), n_classes=30)
+    probes.discriminator_round_trip_probe(R)
     probes.stdlib_round_trip_probe(R, aspects=("round_trip", "json"))
     T1 = "univ * sopts * ty * value"
     bad, errs = core.run_coq_shards("C05_model", P.header() + HEADER_EXTRA, items,
